@@ -23,15 +23,53 @@ static inline int cusparseSetStream(cusparseHandle_t, cudaStream_t) { return 0; 
 static inline int cusolverSpCreate(cusolverSpHandle_t *h) { *h = malloc(1); return 0; }
 static inline int cusolverSpDestroy(cusolverSpHandle_t h) { free(h); return 0; }
 static inline int cusolverSpSetStream(cusolverSpHandle_t, cudaStream_t) { return 0; }
-class SUNCudaExecPolicy { public: virtual ~SUNCudaExecPolicy() {} };
+/* execution policies: same interface as sundials_cuda_policies.hpp (gridSize / blockSize / stream) */
+class SUNCudaExecPolicy {
+   public:
+    virtual size_t gridSize(size_t numWorkUnits = 0, size_t blockDim = 0) const = 0;
+    virtual size_t blockSize(size_t numWorkUnits = 0, size_t gridDim = 0) const = 0;
+    virtual const cudaStream_t *stream() const = 0;
+    virtual ~SUNCudaExecPolicy() {}
+};
 class SUNCudaThreadDirectExecPolicy : public SUNCudaExecPolicy {
    public:
     SUNCudaThreadDirectExecPolicy(int blockdim, cudaStream_t s = 0) : b_(blockdim), s_(s) {}
+    size_t gridSize(size_t n = 0, size_t = 0) const override { return (n + b_ - 1) / b_; }
+    size_t blockSize(size_t = 0, size_t = 0) const override { return b_; }
+    const cudaStream_t *stream() const override { return &s_; }
     int b_; cudaStream_t s_;
 };
 class SUNCudaBlockReduceExecPolicy : public SUNCudaExecPolicy {
    public:
     SUNCudaBlockReduceExecPolicy(int blockdim, int griddim = 0, cudaStream_t s = 0) : b_(blockdim), g_(griddim), s_(s) {}
+    size_t gridSize(size_t n = 0, size_t = 0) const override { return g_ > 0 ? (size_t)g_ : (n + 2 * b_ - 1) / (2 * b_); }
+    size_t blockSize(size_t = 0, size_t = 0) const override { return b_; }
+    const cudaStream_t *stream() const override { return &s_; }
     int b_, g_; cudaStream_t s_;
 };
+/* ---- host execution of kernels (C03 conformance): K<<<g, b, shmem, stream>>>(args) is rewritten by the harness to
+   VERIF_LAUNCH(K, g, b)(args); the "threads" of the grid run one after the other (the kernels have no
+   intra-block communication), each seeing its own blockIdx/threadIdx */
+struct verif_dim3 { unsigned x, y, z; };
+#ifdef VERIF_CUDA_DEFINE_DIMS
+verif_dim3 blockIdx = {0, 0, 0}, blockDim = {1, 1, 1}, threadIdx = {0, 0, 0}, gridDim = {1, 1, 1};
+long verif_kernel_threads = 0;
+#else
+extern verif_dim3 blockIdx, blockDim, threadIdx, gridDim;
+extern long verif_kernel_threads;
+#endif
+template <class F> struct verif_launcher {
+    F f; unsigned g, b;
+    template <class... A> void operator()(A... a) const {
+        gridDim = {g, 1, 1}; blockDim = {b, 1, 1};
+        for (unsigned bi = 0; bi < g; bi++) for (unsigned ti = 0; ti < b; ti++) { blockIdx = {bi, 0, 0}; threadIdx = {ti, 0, 0}; verif_kernel_threads++; f(a...); }
+    }
+};
+#define VERIF_LAUNCH(K, G, B) (verif_launcher<decltype(&K)>{&K, (unsigned)(G), (unsigned)(B)})
+enum cudaMemcpyKind { cudaMemcpyHostToHost = 0, cudaMemcpyHostToDevice = 1, cudaMemcpyDeviceToHost = 2, cudaMemcpyDeviceToDevice = 3 };
+static inline cudaError_t cudaMalloc(void **p, size_t n) { *p = malloc(n ? n : 1); return cudaSuccess; }   /* exactly sized: ASan sees overruns */
+static inline cudaError_t cudaFree(void *p) { free(p); return cudaSuccess; }
+static inline cudaError_t cudaMemcpy(void *d, const void *s, size_t n, cudaMemcpyKind) { memcpy(d, s, n); return cudaSuccess; }
+static inline cudaError_t cudaMemcpyAsync(void *d, const void *s, size_t n, cudaMemcpyKind, cudaStream_t = 0) { memcpy(d, s, n); return cudaSuccess; }
+static inline cudaError_t cudaStreamSynchronize(cudaStream_t) { return cudaSuccess; }
 #endif
